@@ -129,6 +129,7 @@ ValueAt(job, path) == Lookup(IF Head(path) = "doc" THEN job.doc ELSE job.sp, Tai
 ReTableStatic ==
   { <<<<94, 49, 36>>, <<49>>>>,            \* ^1$ ~ "1"
     <<<<97>>, <<97, 98>>>>,                \* a   ~ "ab"
+    <<<<97>>, <<34, 97, 98, 34>>>>, <<<<97>>, <<115, 112, 46, 97>>>>, <<<<97>>, <<97>>>>,   \* a ~ "\"ab\"", "sp.a", "a"  (QueryCli.tla)
     <<<<>>, <<49>>>>, <<<<>>, <<97, 98>>>> }   \* ""  ~ anything
 
 FileIn == IF MODE \in {"file", "scale"} THEN ndJsonDeserialize(IOEnv.QUERY_IN) ELSE <<>>
